@@ -416,6 +416,24 @@ func (x *Exec) writePath(cur Val, path []pathElem, v Val) Val {
 				default:
 					nt = Sym("ref:opaque", SRef)
 				}
+			} else if gs, isGS := nv.(*GoSlice); isGS && want != nil && isSliceSort(want) {
+				// a Go slice value with term elements stored into a struct term: build the slice term
+				es := want.Fields[1].Sort.Elem
+				arr := ZeroOf(want.Fields[1].Sort)
+				okAll := true
+				for i, e := range gs.Elems {
+					et, isT := e.(*Term)
+					if !isT || et.Sort != es {
+						okAll = false
+						break
+					}
+					arr = Store(arr, IntLit(int64(i)), et)
+				}
+				if okAll {
+					nt = Con(want, IntLit(int64(len(gs.Elems))), arr)
+				} else {
+					x.errorf("storing non-term %T into term struct", nv)
+				}
 			} else {
 				x.errorf("storing non-term %T into term struct", nv)
 				return c
